@@ -280,8 +280,111 @@ def _reject_task(t):
     return {"evals": evals, "nontriv": nontriv, "viols": list(viols.values()), "key": repr(("R",) + t)}
 
 
+class BigApp:
+    def __init__(self):
+        self.calls = 0
+        self.mode = "list"
+
+    def __call__(self, environ, start_response):
+        self.calls += 1
+        body = [b"x" * 70000] * 8
+        start_response("200 OK", [("Content-Length", str(70000 * 8))] if self.mode != "chunked" else [])
+        if self.mode == "write":
+            w = start_response.__self__.write if False else None
+        return iter(body)
+
+
+def _gone_task(t):
+    """The client disappears before or while the response is written: still at most one record for the one application call."""
+    (wi,) = t
+    kind, kw = c02.WORKER_CFGS[wi]
+    app = BigApp()
+    b = bench.Bench(kind, kw, app, access_format=FMT)
+    viols = {}
+    n = 0
+    try:
+        for mode in ("list", "chunked"):
+            for ending in ("close", "reset", "reset-after-read"):
+                for head in (b"GET /first HTTP/1.1\r\nHost: h\r\n\r\n", b"GET /first HTTP/1.0\r\n\r\n",
+                             b"GET /first HTTP/1.1\r\nHost: h\r\n\r\nGET /first HTTP/1.1\r\nHost: h\r\n\r\n"):
+                    app.calls = 0
+                    app.mode = mode
+                    b.worker.alive = True
+                    o = b.connection(head, ending=ending)
+                    n += 1
+                    v = None
+                    if len(o.access) > app.calls:
+                        v = ("more-records-than-calls", "%d access records for %d application call(s), the client went away (%s) while the %d-byte response was written: %r" % (
+                            len(o.access), app.calls, ending, 70000 * 8, o.access))
+                    elif any(not REC.fullmatch(r) for r in o.access):
+                        v = ("record-unparseable", "%r" % o.access)
+                    if v and v[0] not in viols:
+                        viols[v[0]] = violation("gone:" + v[0] + ":" + kind, "worker=%s %r: %s" % (kind, kw, v[1]), {"part": "gone", "worker": wi})
+    finally:
+        b.close()
+    return {"evals": n, "nontriv": n, "viols": list(viols.values()), "key": repr(("G",) + t)}
+
+
+def _channel_confs(scratch):
+    import json
+    base = {"version": 1, "disable_existing_loggers": False,
+            "loggers": {"gunicorn.access": {"level": "INFO", "handlers": [], "propagate": False, "qualname": "gunicorn.access"}}}
+    jpath = scratch + "/log.json"
+    open(jpath, "w").write(json.dumps(base))
+    ipath = scratch + "/log.ini"
+    open(ipath, "w").write("[loggers]\nkeys=root,gunicorn.error,gunicorn.access\n[handlers]\nkeys=null\n[formatters]\nkeys=f\n[logger_root]\nlevel=INFO\nhandlers=null\n"
+                           "[logger_gunicorn.error]\nlevel=INFO\nhandlers=null\npropagate=0\nqualname=gunicorn.error\n"
+                           "[logger_gunicorn.access]\nlevel=INFO\nhandlers=null\npropagate=0\nqualname=gunicorn.access\n"
+                           "[handler_null]\nclass=logging.NullHandler\nargs=()\n[formatter_f]\nformat=%(message)s\n")
+    return {
+        "accesslog": ({"accesslog": "-"}, True),
+        "logconfig_dict": ({"accesslog": None, "logconfig_dict": base}, True),
+        "logconfig_json": ({"accesslog": None, "logconfig_json": jpath}, True),
+        "logconfig": ({"accesslog": None, "logconfig": ipath}, True),
+        "syslog": ({"accesslog": None, "syslog": True}, True),
+        "syslog-without-access": ({"accesslog": None, "syslog": True, "disable_redirect_access_to_syslog": True}, False),
+        "none": ({"accesslog": None}, False),
+    }
+
+
+def _channels_task(t):
+    """Every way of switching the access log on (and the ways of leaving it off): one record per completed request / none."""
+    (wi,) = t
+    kind, kw0 = HOSTILE_WORKERS[wi]
+    scratch = tempfile.mkdtemp(prefix="verif-c19-", dir="/dev/shm")
+    viols = []
+    n = 0
+    try:
+        for cname, (ckw, on) in _channel_confs(scratch).items():
+            for statsd in (False, True):
+                kw = dict(kw0)
+                kw.update(ckw)
+                if statsd:
+                    kw["statsd_host"] = "localhost:8125"
+                app = ReflectApp()
+                try:
+                    b = bench.Bench(kind, kw, app, access_format=FMT)
+                except Exception as e:
+                    viols.append(violation("channels:logger-setup-failed:%s" % cname, "%s: %s: %s" % (cname, type(e).__name__, e), {"part": "channels", "worker": wi}))
+                    continue
+                try:
+                    o = b.connection(b"GET /one HTTP/1.1\r\nHost: h\r\n\r\nGET /two HTTP/1.1\r\nHost: h\r\nConnection: close\r\n\r\n")
+                finally:
+                    b.close()
+                n += 1
+                want = app.calls if on else 0
+                if len(o.access) != want:
+                    viols.append(violation("channels:record-count:%s" % cname, "worker=%s access logging configured through %s%s: %d application calls, %d access records (expected %d): %r" % (
+                        kind, cname, " + statsd" if statsd else "", app.calls, len(o.access), want, o.access[:3]), {"part": "channels", "worker": wi}))
+    finally:
+        shutil.rmtree(scratch, ignore_errors=True)
+        import logging
+        logging.getLogger("gunicorn.access").handlers = []
+    return {"evals": n, "nontriv": n, "viols": viols[:3], "key": repr(("C",) + t)}
+
+
 def _task(t):
-    return {"T": _truth_task, "H": _hostile_task, "R": _reject_task}[t[0]](t[1:])
+    return {"T": _truth_task, "H": _hostile_task, "R": _reject_task, "G": _gone_task, "C": _channels_task}[t[0]](t[1:])
 
 
 def run(ctx):
@@ -289,6 +392,8 @@ def run(ctx):
     nf = 1 + 2 * len(ATOMS)
     tasks += [("H", wi, f) for wi in range(len(HOSTILE_WORKERS)) for f in range(nf)]
     tasks += [("R", wi, s) for wi in range(len(HOSTILE_WORKERS)) for s in range(4)]
+    tasks += [("G", wi) for wi in range(len(c02.WORKER_CFGS))]
+    tasks += [("C", wi) for wi in range(len(HOSTILE_WORKERS))]
     random.Random(ctx.seed).shuffle(tasks)
     res = par.pmap(_task, tasks)
     res.sort(key=lambda r: r["key"])
@@ -313,6 +418,12 @@ def run(ctx):
 
 
 def replay(case):
+    if case["part"] == "gone":
+        r = _gone_task((case["worker"],))
+        return r["viols"][0] if r["viols"] else None
+    if case["part"] == "channels":
+        r = _channels_task((case["worker"],))
+        return r["viols"][0] if r["viols"] else None
     if case["part"] == "hostile":
         r = _hostile_task(tuple(case["t"]))
         return r["viols"][0] if r["viols"] else None
